@@ -710,7 +710,19 @@ func (e *Engine) owner(fn *ssa.Function) bool {
 				return e.cfg.Owners[tp]
 			}
 		}
-		return e.cfg.Owners[core.RelPkg(p)+".*func"] || higherOrder(fn)
+		if e.cfg.Owners[core.RelPkg(p)+".*func"] || higherOrder(fn) {
+			return true
+		}
+		// a plain function of the package that is handed the cursor explicitly (consumeStringToken(r *parse.Input)):
+		// a scanner written as a function instead of a method (one Input per lexer: identity by type)
+		for _, prm := range fn.Params {
+			if tp, ok := modTypePath(prm.Type()); ok && tp == "parse.Input" {
+				if _, isPtr := prm.Type().Underlying().(*types.Pointer); isPtr {
+					return true
+				}
+			}
+		}
+		return false
 	}
 	return e.cfg.Owners[core.RelPkg(p)+"."+name]
 }
